@@ -82,6 +82,7 @@ def c03(obj, kind, case, cfg, rec):
                                     [(a + b) / 2 for a, b in zip(fin, fin[1:])]))
                 Xp = pd.DataFrame({c: [case['X'][c].dropna().iloc[0] if case['X'][c].notna().any() else np.nan] * len(probes) for c in case['X'].columns})
                 Xp[raw] = probes
+                Xp.index = [len(probes) - i + 7 for i in range(len(probes))]           # a non-default, decreasing index
                 ok_cols = True
                 try:
                     out = obj.transform(Xp)[f].tolist()
@@ -238,6 +239,7 @@ def c06(obj, kind, case, cfg, rec, rng):
         j1 = json.loads(dumped); j2 = json.loads(json.dumps(re.to_json()))
         for j in (j1, j2):
             j['features'] = sorted(j['features'])
+            if isinstance(j.get('values_orders'), str): j['values_orders'] = json.loads(j['values_orders'])      # nested JSON text: compared as JSON values
         rec('C06:to_json#post.reserialisation_is_identical', j1 == j2, 'keys differing: %r' % ([k for k in set(j1) | set(j2) if j1.get(k) != j2.get(k)],))
     except Exception as e:
         rec('C06:to_json#post.reserialisation_is_identical', False, 're-serialisation raised %s' % e)
@@ -296,7 +298,7 @@ def c07_fit(kind, case, cfg, rec):
             rec('C07:fit_transform#post.equals_fit_then_transform', False, 'fit_transform raised %s %s' % (type(e).__name__, str(e)[:100]))
     elif kind == 'Discretizer':
         try:
-            o2 = zoo.make_discretizer(case, cfg['min_freq']); ft = o2.fit_transform(case['X'], case['y'])
+            o2 = zoo.make_discretizer(case, cfg['min_freq'], cfg=cfg); ft = o2.fit_transform(case['X'], case['y'])
             rec('C07:fit_transform#post.equals_fit_then_transform', a[0] == 'ok' and frame_equal(ft, a[1]), 'fit_transform differs from fit;transform')
         except AssertionError: pass
 
@@ -441,6 +443,21 @@ def one(arg):
         try: fn()
         except Exception as e:
             recs.append(('X:battery_crash', False, lit, '%s clause group crashed: %s' % (p, traceback.format_exc()[-700:])))
+    if ('C04' in props or 'C06' in props) and kind in ('BinaryCarver', 'ContinuousCarver', 'Discretizer'):
+        # the same clauses on a manually edited object (update_discretizer), as the quantifiers of C04 / C06 say
+        try:
+            from rtc.c17_edits import candidate_edits
+            eo = ob.build(kind, case, cfg); done = []
+            for _ in range(2):
+                cands = candidate_edits(eo, case, rng)
+                if not cands: break
+                e = rng.choice(cands); eo.update_discretizer(*e); done.append([None if isnan(x) else x for x in e])
+            if done:
+                rec_e = lambda c, ok, m, ex=None: rec(c + '.after_edit', ok, m, dict(ex or {}, edits=done))
+                if 'C04' in props: c04(eo, kind, case, cfg, rec_e)
+                if 'C06' in props: c06(eo, kind, case, cfg, rec_e, rng)
+        except Exception as e:
+            recs.append(('X:battery_crash', False, lit, 'edited-object clauses crashed: %s' % traceback.format_exc()[-600:]))
     if 'C04' in props:
         # reloaded object and re-indexed frame obey the same mapping
         try:
@@ -452,6 +469,52 @@ def one(arg):
     return recs
 
 
+def direct_objects(rng, n):
+    """BaseDiscretizer objects built directly from hand-made values_orders (boundaries that differ only beyond 4 significant digits, tiny / huge magnitudes,
+    numeric-valued categories) -- no fit of data involved"""
+    out = []
+    pools = [[1.00001, 1.00002, 1.00003], [202301.0, 202302.0, 202303.0, 202312.0], [1e-300, 1e-9, 1.0, 1e9, 1e300], [0.1, 0.2, 0.30000000000000004], [-5.0, 0.0, 5.0], [1.5]]
+    for i in range(n):
+        qs = pools[i % len(pools)]; cats = rng.choice([['a', 'b', 'c'], ['x', '1', '2.5'], ['low', 'high']])
+        for od in ('float', 'str'):
+            for dn in (True, False):
+                out.append(dict(quantiles=qs, cats=cats, output_dtype=od, dropna=dn, nan=(i % 2 == 0)))
+    return out
+
+
+def one_direct(arg):
+    spec, props, seed = arg
+    import random
+    from AutoCarver.discretizers import BaseDiscretizer, GroupedList
+    rng = random.Random(seed); recs = []
+    qs, cats = spec['quantiles'], spec['cats']; nanv = '__NAN__'
+    vo = {'q': GroupedList(list(qs) + [float('inf')] + ([nanv] if spec['nan'] else [])), 'c': GroupedList(list(cats) + ([nanv] if spec['nan'] else []))}
+    if len(cats) > 2: vo['c'].group(cats[1], cats[0])
+    xs = []
+    for v in qs: xs += [v, float(np.nextafter(v, np.inf)), float(np.nextafter(v, -np.inf))]
+    xs += [qs[0] - 1, qs[-1] * 2 + 1]
+    if spec['nan']: xs.append(np.nan)
+    X = pd.DataFrame({'q': pd.Series(xs, dtype=float), 'c': pd.Series([(cats + ([np.nan] if spec['nan'] else []))[i % (len(cats) + (1 if spec['nan'] else 0))] for i in range(len(xs))], dtype=object)})
+    case = dict(X=X, y=pd.Series([i % 2 for i in range(len(xs))]), X_dev=None, y_dev=None, quantitative=['q'], qualitative=['c'], ordinal=[], values_orders={}, target='binary')
+    lit = dict(kind='BaseDiscretizer', spec=spec)
+    def rec(clause, ok, msg, extra=None): recs.append((clause, bool(ok), dict(lit, **(extra or {})), msg))
+    try:
+        obj = BaseDiscretizer(features=['q', 'c'], values_orders=vo, input_dtypes={'q': 'float', 'c': 'str'}, output_dtype=spec['output_dtype'], dropna=spec['dropna'], str_nan=nanv, str_default='__OTHER__', copy=True, verbose=False)
+        obj.fit(X, case['y'])
+    except Exception as e:
+        return [('C08:fit#raises.only_AssertionError', isinstance(e, AssertionError), lit, 'BaseDiscretizer.fit raised %s %s' % (type(e).__name__, str(e)[:150]))]
+    cfg = dict(output_dtype=spec['output_dtype'], dropna=spec['dropna'])
+    for p, fn in (('C04', lambda: c04(obj, 'BaseDiscretizer', case, cfg, rec)), ('C03', lambda: c03(obj, 'BaseDiscretizer', case, cfg, rec)), ('C06', lambda: c06(obj, 'BaseDiscretizer', case, cfg, rec, rng)),
+                  ('C16', lambda: c16(obj, 'BaseDiscretizer', case, cfg, rec)), ('C05', lambda: c05(obj, 'BaseDiscretizer', case, cfg, rec, rng))):
+        if p in props:
+            try: fn()
+            except Exception: recs.append(('X:battery_crash', False, lit, '%s on a direct object crashed: %s' % (p, traceback.format_exc()[-600:])))
+    if 'C04' in props:
+        try: c04(reload(obj, 'BaseDiscretizer'), 'BaseDiscretizer', case, cfg, rec, tag='.reloaded_from_json')
+        except Exception: recs.append(('C04:transform#post.training_rows_accepted.reloaded_from_json', False, lit, 'reload raised ' + traceback.format_exc()[-300:]))
+    return recs
+
+
 def run_battery(ctx, props, kinds=None, n_random=None):
     n_random = n_random or (90 if ctx.tier == 'quick' else 900)
     specs = ob.object_specs(ctx.rng, n_random, ctx.tier, kinds=kinds)
@@ -459,6 +522,10 @@ def run_battery(ctx, props, kinds=None, n_random=None):
               'never-observed values; optional NaN and dev sample) over %r x configurations, plus single-feature count-table frames' % (len(specs), kinds or 'all classes'))
     args = [(k, c, cfg, set(props), ctx.seed * 100003 + i) for i, (k, c, cfg) in enumerate(specs)]
     allrecs = zoo.pmap(one, args)
+    if set(props) & {'C03', 'C04', 'C05', 'C06', 'C16'}:
+        dspecs = direct_objects(ctx.rng, 6 if ctx.tier == 'quick' else 12)
+        ctx.bound('direct objects', '%d BaseDiscretizer objects built from hand-made values_orders (boundaries equal up to 4 significant digits, 1e-300..1e300, numeric-valued categories)' % len(dspecs))
+        allrecs += zoo.pmap(one_direct, [(d, set(props), ctx.seed + i) for i, d in enumerate(dspecs)])
     skips = {}
     for recs in allrecs:
         for clause, ok, wit, msg in recs:
